@@ -115,6 +115,19 @@ func c13Job(shard, nshards int, tier string) Job {
 		}
 		defer h.close()
 		cases := c13Cases(tier)
+		// every multi-IP case twice: ranges requested in the order of the pools and in the opposite order (the order of the
+		// request, not any order of the addresses, is what the plugin must see)
+		var expanded [][]c13Setting
+		var reversed []bool
+		for _, cs := range cases {
+			expanded = append(expanded, cs)
+			reversed = append(reversed, false)
+			if len(cs) > 1 {
+				expanded = append(expanded, cs)
+				reversed = append(reversed, true)
+			}
+		}
+		cases = expanded
 		for ci, cs := range cases {
 			if ci%nshards != shard {
 				continue
@@ -136,6 +149,13 @@ func c13Job(shard, nshards int, tier string) Job {
 				wants = append(wants, want{ip, gw, ml, vl})
 			}
 			desc := fmt.Sprintf("pools [%s]", strings.Join(pools, ","))
+			if reversed[ci] {
+				for i, j := 0, len(ranges)-1; i < j; i, j = i+1, j-1 {
+					ranges[i], ranges[j] = ranges[j], ranges[i]
+					wants[i], wants[j] = wants[j], wants[i]
+				}
+				desc += " requested in reverse order " + strings.Join(ranges, ",")
+			}
 			w := world.New(world.Config{Pools: "[" + strings.Join(pools, ",") + "]", Nodes: nodesN1})
 			if err := w.Start(); err != nil {
 				r.violate("C13", name, "setup", "configuration-rejected", "ConfigurePool", desc+": "+err.Error(), []string{desc})
